@@ -163,11 +163,14 @@ class Repo:
             self._index(mi)
 
     def digest(self):
+        if getattr(self, "_digest", None):
+            return self._digest
         h = hashlib.sha256()
         for name in sorted(self.modules):
             h.update(name.encode())
             h.update(self.modules[name].src.encode())
-        return h.hexdigest()[:16]
+        self._digest = h.hexdigest()[:16]
+        return self._digest
 
     def _abs_module(self, mi: ModuleInfo, level: int, module: str | None):
         if level == 0:
